@@ -1,4 +1,3 @@
 package engine
 
 func (g *Gen) genQueries(midBlock bool) bool { return true }
-func (g *Gen) probePhase() bool              { return true }
